@@ -24,6 +24,7 @@ import PyTough.Proofs.InconRoundtrip
 import PyTough.Proofs.InconRewrite
 import PyTough.Proofs.InconFixpoint
 import PyTough.Proofs.InconMore1
+import PyTough.Proofs.InconMore2
 
 namespace Props.C13
 open Py Model Model.Incon Model.Names Proofs Proofs.Incon
@@ -495,6 +496,39 @@ example : HeaderStable .fortran exTimed false := by
   rw [h1] at hs
   cases hs
   decide +kernel
+
+/-! ### the text of the file: universal newlines -/
+
+/-- **Line ends do not matter** (`_partial`: the lines are assumed `CleanLine` — some text without
+    `'\n'`/`'\r'` followed by one `'\n'` — which is decidable on the written file).
+    The text of the written file (`file.flatten`) is split by text-mode reading (`splitLines`:
+    `"\r\n"` and `'\r'` are translated to `'\n'`, then the text is cut after each `'\n'`) into
+    exactly the lines `write` produced, and so is the same text with every `'\n'` replaced by
+    `"\r\n"` (`crlf`, a file that went through a DOS tool) or by `'\r'` (`crOnly`); hence `read` of
+    any of the three texts returns `canon x reset`. -/
+theorem read_any_line_ends_partial (rf : ReadFn) (x : Incon Val) (nvars : Option Nat) (check reset : Bool)
+    (hwf : InconWF x nvars) {file : List Str} (hw : write theSpecs x reset = .ok file)
+    (hclean : ∀ l ∈ file, CleanLine l) :
+    splitLines file.flatten = file ∧
+    read rf theSpecs TOUGH2 nvars check (splitLines file.flatten) = .ok (canon rf x reset) ∧
+    read rf theSpecs TOUGH2 nvars check (splitLines (crlf file.flatten)) = .ok (canon rf x reset) ∧
+    read rf theSpecs TOUGH2 nvars check (splitLines (crOnly file.flatten)) = .ok (canon rf x reset) := by
+  obtain ⟨h1, h2, h3⟩ := splitLines_clean file hclean
+  have h := incon_roundtrip_partial rf x nvars check reset hwf hw
+  rw [h1, h2, h3]
+  exact ⟨rfl, h, h, h⟩
+
+example : ∀ l ∈ ["INCON\n".toList, "ab1 7         31.000000000e-01\n".toList,
+     "-2.6000000000000e+031.0000000000000e-100\n".toList, "\n".toList, "\n".toList], CleanLine l := by
+  intro l hl
+  simp only [List.mem_cons, List.not_mem_nil, or_false] at hl
+  rcases hl with rfl | rfl | rfl | rfl | rfl
+  · exact ⟨"INCON".toList, by decide, by decide⟩
+  · exact ⟨"ab1 7         31.000000000e-01".toList, by decide, by decide⟩
+  · exact ⟨"-2.6000000000000e+031.0000000000000e-100".toList, by decide, by decide⟩
+  · exact ⟨[], by decide, by decide⟩
+  · exact ⟨[], by decide, by decide⟩
+example : crlf "a\n\nb\n".toList = "a\r\n\r\nb\r\n".toList ∧ crOnly "a\n\nb\n".toList = "a\r\rb\r".toList := by decide
 
 /-
   The theorems work on the list of lines (`write` returns them, `read` takes them); that the text
